@@ -159,7 +159,7 @@ pub fn run(ctx: &mut Ctx) {
     cfg.oversell_pct = 8;
     let n = ctx.n(500, 30_000);
     let base_cases = matcher_cases(prop, ctx, &cfg, n);
-    ctx.ev.rule = "corpus + fixtures + generated ledgers without cost events, each also in a hostile variant (earliest purchases dropped; a sale row duplicated; sale + companion sale + repurchase within 30 days; sale straddling a split/unsplit; same-day purchase + sale larger than purchase + holding + repurchase within 30 days; several disposals on different days identified with one later purchase followed by a further sale before it arrives; an earlier sale identified with a repurchase still to come and a second sale before it with a SPLIT/UNSPLIT on, just before or just after that sale's day; a sale of the whole holding plus 10⁻⁶ … 10⁻¹² of a share): the real calculate() accepts iff an independent cumulative-position check over the raw lines says every (date, security) is covered; a refusal names an uncovered security and the earliest uncovered date; the Lean model agrees on accept/reject, error kind, security and date. Known-finding class inexactRatio (D3: a SPLIT/UNSPLIT ratio with a prime factor other than 2 and 5) is probed with its witness and directed ledgers, by the oracle only. A sample of refused and accepted ledgers is also run through the real CLI (exit status, stdout, --output file). Non-trivial = uncovered ledgers, and covered ledgers containing a 30-day match; distinct by ledger text.".into();
+    ctx.ev.rule = "corpus + fixtures + generated ledgers without cost events, each also in a hostile variant (earliest purchases dropped; a sale row duplicated; sale + companion sale + repurchase within 30 days; sale straddling a split/unsplit; same-day purchase + sale larger than purchase + holding + repurchase within 30 days; several disposals on different days identified with one later purchase followed by a further sale before it arrives; an earlier sale identified with a repurchase still to come and a second sale before it with a SPLIT/UNSPLIT on, just before or just after that sale's day; a sale of the whole holding plus 10⁻⁶ … 10⁻¹² of a share; a SPLIT/UNSPLIT on a disposal day written before or after the SELL line, a buy-back within thirty days and a final sale of the holding ± a few shares): the real calculate() accepts iff an independent cumulative-position check over the raw lines says every (date, security) is covered; a refusal names an uncovered security and the earliest uncovered date; the Lean model agrees on accept/reject, error kind, security and date. Known-finding class inexactRatio (D3: a SPLIT/UNSPLIT ratio with a prime factor other than 2 and 5) is probed with its witness and directed ledgers, by the oracle only. A sample of refused and accepted ledgers is also run through the real CLI (exit status, stdout, --output file). Non-trivial = uncovered ledgers, and covered ledgers containing a 30-day match; distinct by ledger text.".into();
     let ex = run_impl::wide_exemptions();
     let mut r = Rng::new(ctx.seed ^ 0xC05);
     let mut cli_budget: i64 = if ctx.tier == Tier::Quick { 24 } else { 300 };
@@ -170,6 +170,32 @@ pub fn run(ctx: &mut Ctx) {
         let hostile = gen_hostile(&mut r, &l);
         cases.push((format!("{name}/hostile"), hostile));
         cases.push((name, l));
+    }
+    // a SPLIT/UNSPLIT dated on a disposal day and written before (or after) the SELL line, a buy-back inside
+    // the thirty days, then a sale of what is then held, exactly or a few shares more or fewer (drawn from a
+    // stream of its own, so the cases above stay what they were)
+    {
+        let mut r8 = Rng::new(ctx.seed ^ 0xC05_5D17);
+        for i in 0..ctx.n(24, 600) {
+            let split = r8.chance(1, 2);
+            let k = Decimal::from(*r8.pick(&[2i64, 4, 5]));
+            let h = Decimal::from(*r8.pick(&[100i64, 120, 200]));
+            let s1 = Decimal::from(*r8.pick(&[20i64, 60, 100])).min(h);
+            let d0 = ledger::d(2021 + (i % 3) as i32, 1 + r8.below(9) as u32, 1 + r8.below(25) as u32);
+            let d1 = d0 + Duration::days(35 + r8.range(0, 20));
+            let mut l: Ledger = vec![GTx::new(d0, "AAA", Kind::Buy, h, Decimal::ONE, Decimal::ZERO)];
+            let ev = GTx::new(d1, "AAA", if split { Kind::Split } else { Kind::Unsplit }, k, Decimal::ZERO, Decimal::ZERO);
+            let sell = GTx::new(d1, "AAA", Kind::Sell, s1, Decimal::TWO, Decimal::ZERO);
+            if i % 3 != 2 { l.push(ev); l.push(sell); } else { l.push(sell); l.push(ev); }
+            // the day's factor applies after the day's trades: what is left is restated, the buy-back is in new units
+            let f = |x: Decimal| if split { x * k } else { x / k };
+            let back = f(Decimal::from(*r8.pick(&[10i64, 20, 100])).min(s1));
+            l.push(GTx::new(d1 + Duration::days(r8.range(1, 29)), "AAA", Kind::Buy, back, Decimal::from(3), Decimal::ZERO));
+            let held = f(h - s1) + back;
+            let last = held + Decimal::from(*r8.pick(&[0i64, 0, 1, -1, 10])) * if split { Decimal::ONE } else { Decimal::new(2, 1) };
+            if last > Decimal::ZERO { l.push(GTx::new(d1 + Duration::days(40), "AAA", Kind::Sell, last, Decimal::TWO, Decimal::ZERO)); }
+            cases.push((format!("splitday#{i}"), l));
+        }
     }
     // known finding D3 (class inexactRatio), probed with its witness and with directed ledgers; these are
     // judged by the oracle only (the model's exact rationals accept them, as the property demands)
